@@ -513,3 +513,17 @@ def c04_7(ctx: Ctx) -> RuleResult:
         i.rule = "C04.7"
     r.rule, r.title, r.floor = "C04.7", "the objective flavours rank by values[..., sort] . objective_weights[sort] (weights always applied when several objectives are configured)", 2
     return r
+
+
+@rule(P)
+def c04_8(ctx: Ctx) -> RuleResult:
+    """Shared with C01.3 / C05.3: "the reported value of the ranked function is the CVaR tail mean" needs the filter's weights
+    to arrive at the rows of the functions mapped to the filter - stored, at the mapped rows, kept when later filters run."""
+    from .c01 import c01_3
+
+    r = c01_3(ctx)
+    r.instances = [i for i in r.instances if "rows of" in i.construct or "filter stores" in i.construct]
+    for i in r.instances:
+        i.rule = "C04.8"
+    r.rule, r.title, r.floor = "C04.8", "the filter's weights reach exactly the objectives and constraints mapped to it and survive later filters", 2
+    return r
